@@ -35,8 +35,11 @@ class TyRef:
         if k == 'None':
             return sym.TNone
         if k == 'Opaque':
-            attrs = {a: t.resolve() for a, t in self.kw.get('attrs', {}).items()}
-            return sym.TOpaque(self.args[0], attrs)
+            obj = sym.TOpaque(self.args[0])
+            if not getattr(self, '_resolved', False):
+                self._resolved = True  # (recursive attribute types are allowed)
+                obj.attrs.update({a: t.resolve() for a, t in self.kw.get('attrs', {}).items()})
+            return obj
         if k == 'Tuple':
             return sym.TTuple(*[a.resolve() for a in self.args])
         if k == 'Seq':
@@ -187,6 +190,7 @@ class ModuleSpec:
         self.natives = {}  # helpers for native clause evaluation
         self.lemmas = []
         self.aliases = {}  # local name -> 'path.py:qualname' of a contract in another module
+        self.consts = {}  # module-level name -> TyRef (an uninterpreted constant of that type)
         MODULES[path] = self
 
     def fold(self, name, dom, cod, init, step, homomorphic=False):
@@ -219,6 +223,10 @@ def implies(a, b):
 
 def rev(s):
     return list(reversed(s))
+
+
+def val(x):
+    return x
 
 
 def parse_expr(src):
